@@ -1,5 +1,6 @@
 SPECIFICATION Spec
-CONSTANTS N = 4
+CONSTANTS DataPlane = "off"
+          N = 4
           MaxTime = 14
           Silent = 1
           FaultKind = "restart"
